@@ -25,7 +25,8 @@ def git_cfg(self, option):
 
 @contract("xandikos.store.git.RepoCollectionMetadata.set_color",
           params={"self": "obj:xandikos.store.git.RepoCollectionMetadata", "color": "opt[str]"},
-          modifies=["self._repo"])
+          modifies=["self._repo"],
+          effects=[["metadata_write", "self"]])
 class repo_set_color_c:
     def ensures(self, color):
         want = color.encode("utf-8") if color is not None else b""
@@ -45,7 +46,8 @@ class repo_get_color_c:
 
 @contract("xandikos.store.git.RepoCollectionMetadata.set_displayname",
           params={"self": "obj:xandikos.store.git.RepoCollectionMetadata", "displayname": "opt[str]"},
-          modifies=["self._repo"])
+          modifies=["self._repo"],
+          effects=[["metadata_write", "self"]])
 class repo_set_displayname_c:
     def ensures(self, displayname):
         want = displayname.encode("utf-8") if displayname is not None else b""
@@ -65,7 +67,8 @@ class repo_get_displayname_c:
 
 @contract("xandikos.store.git.RepoCollectionMetadata.set_comment",
           params={"self": "obj:xandikos.store.git.RepoCollectionMetadata", "comment": "opt[str]"},
-          modifies=["self._repo"])
+          modifies=["self._repo"],
+          effects=[["metadata_write", "self"]])
 class repo_set_comment_c:
     def ensures(self, comment):
         want = comment.encode("utf-8") if comment is not None else b""
@@ -85,7 +88,8 @@ class repo_get_comment_c:
 
 @contract("xandikos.store.git.RepoCollectionMetadata.set_description",
           params={"self": "obj:xandikos.store.git.RepoCollectionMetadata", "description": "opt[str]"},
-          modifies=["self._repo"])
+          modifies=["self._repo"],
+          effects=[["metadata_write", "self"]])
 class repo_set_description_c:
     def ensures(self, description):
         want = description.encode("utf-8") if description is not None else b""
